@@ -55,6 +55,25 @@ theorem bloomLenReal_bounds {m k X : ℝ} (hm : 0 < m) (hk : 0 < k) (hX0 : 0 ≤
   · exact mul_le_mul_of_nonneg_left h1 (le_of_lt hmk)
   · exact mul_le_mul_of_nonneg_left h2 (le_of_lt hmk)
 
+/-- `len()` over `ℝ` for `2X ≤ m`: `X/k − 1 < len ≤ (X/k)(1 + X/m)` -/
+theorem bloomLen_floor {m k x : ℕ} (hm : 0 < m) (hk : 0 < k) (hx : 2 * x ≤ m) :
+    bloomLen (α := ℝ) m k x = ⌊(-(m : ℝ)) / k * Real.log (1 - (x : ℝ) / m)⌋₊ ∧
+      (x : ℝ) / k - 1 < (bloomLen (α := ℝ) m k x : ℝ) ∧
+      (bloomLen (α := ℝ) m k x : ℝ) ≤ (x : ℝ) / k * (1 + (x : ℝ) / m) := by
+  have hm' : (0 : ℝ) < m := by exact_mod_cast hm
+  have hk' : (0 : ℝ) < k := by exact_mod_cast hk
+  have hx' : (x : ℝ) ≤ (m : ℝ) / 2 := by
+    have : (2 : ℝ) * x ≤ m := by exact_mod_cast hx
+    linarith
+  obtain ⟨h1, h2⟩ := bloomLenReal_bounds hm' hk' (Nat.cast_nonneg x) hx'
+  have h0 : 0 ≤ bloomLenReal m k x := le_trans (by positivity) h1
+  refine ⟨rfl, ?_, ?_⟩
+  · rw [bloomLen_eq]
+    have := Nat.lt_floor_add_one (bloomLenReal m k x)
+    linarith
+  · rw [bloomLen_eq]
+    exact le_trans (Nat.floor_le h0) h2
+
 end Pds.Sizing
 
 namespace Pds.Bloom
@@ -120,5 +139,34 @@ theorem ones_le (hash : List Nat → Nat) {m : Nat} (hm : 0 < m) (k : Nat) (A : 
     exact (List.toFinset_card_le _).trans (le_of_eq (posOf_spec hash hm k x).2.1)
   · rw [ones_eq_card, ← hm']
     exact (card_filter_le _ _).trans (le_of_eq (card_range _))
+
+/-- `len() ≤ D·(1 + X/m) ≤ 1.5·D` while at most half of the bits are set -/
+theorem bloomLen_le_distinct (hash : List Nat → Nat) {m k : Nat} (hm : 0 < m) (hk : 0 < k)
+    (A : List Nat) :
+    ∃ s, run hash m k (inserts A) = some s ∧ (2 * ones s ≤ m →
+      (Pds.Sizing.bloomLen (α := ℝ) m k (ones s) : ℝ) ≤ (A.toFinset.card : ℝ) * (1 + (ones s : ℝ) / m) ∧
+      (Pds.Sizing.bloomLen (α := ℝ) m k (ones s) : ℝ) ≤ 3 / 2 * (A.toFinset.card : ℝ)) := by
+  obtain ⟨s, h1, _, _, h4, _⟩ := ones_le hash hm k A
+  refine ⟨s, h1, fun hx => ?_⟩
+  obtain ⟨_, _, hub⟩ := Pds.Sizing.bloomLen_floor hm hk hx
+  have hm' : (0 : ℝ) < m := by exact_mod_cast hm
+  have hk' : (0 : ℝ) < k := by exact_mod_cast hk
+  have hXk : (ones s : ℝ) / k ≤ A.toFinset.card := by
+    rw [div_le_iff₀ hk']
+    have : (ones s : ℝ) ≤ ((k * A.toFinset.card : ℕ) : ℝ) := by exact_mod_cast h4
+    rw [Nat.cast_mul] at this
+    linarith
+  have hXm : (ones s : ℝ) / m ≤ 1 / 2 := by
+    rw [div_le_iff₀ hm']
+    have : (2 : ℝ) * ones s ≤ m := by exact_mod_cast hx
+    linarith
+  have hXm0 : 0 ≤ (ones s : ℝ) / m := by positivity
+  have hD : (0 : ℝ) ≤ A.toFinset.card := Nat.cast_nonneg _
+  have h1' : (ones s : ℝ) / k * (1 + (ones s : ℝ) / m) ≤
+      (A.toFinset.card : ℝ) * (1 + (ones s : ℝ) / m) :=
+    mul_le_mul_of_nonneg_right hXk (by linarith)
+  constructor
+  · linarith
+  · nlinarith
 
 end Pds.Bloom
